@@ -58,6 +58,12 @@ CLAIMED = {
         "is raised by the time all rows are read, a FormatException names the offending line, and that line number equals the one from a whole-file read.",
         "Holds on the explored region only. For column-count violations the admissible line numbers are p and p+1 (which of two disagreeing lines offends is not determined by the file) and the cross-configuration comparison is not applied to them.",
         "exhaustive enumeration + Hypothesis sampling of injected faults; oracle = must-raise + line-number invariant across configurations"),
+    "C18": (
+        "Exhaustive over the integer boundary set (0, +-(10^p+d), int64 extremes; singly and in mixed batches) plus Hypothesis batches for each "
+        "conversion: ints_to_strings vs str(), str_to_int vs int(), integer lists joined and split, str_to_float vs float() within 8 ulp, "
+        "format-then-parse of doubles, and a metamorphic independence check (a row's result is bit-identical alone, in the batch and in permuted batches).",
+        "Holds on the explored region only. Python's int(), float() and repr() are the reference. One open finding (format-then-parse off by <= 8 ulp) is excluded by a narrow bucket; a larger error is still a violation.",
+        "boundary enumeration + Hypothesis batches, reference oracle (Python int/float/repr) and metamorphic batch-independence oracle"),
 }
 
 PENDING_REASON = "check not built yet in this commit (work in progress, see DESIGN.md section 9); the technique applies"
